@@ -152,6 +152,9 @@ fn build<'d>(cfg: &Cfg, data: &'d [u8], forced: Vec<(u32, u32)>) -> Result<World
         .fault_at(cfg.fault_at)
         .fault_kind(cfg.fault_kind)
         .interrupts(cfg.interrupts)
+        // the source always uses the rest of the slice as scratch space (0xff is not a stamp): bytes
+        // behind the valid window are never zeros, an exposed one fails the content oracle
+        .scribble(Some(0xff))
         .record(true);
     let (inner, src) = ScriptedSource::new(scfg, forced);
     let lie_calls = std::rc::Rc::new(std::cell::Cell::new(0));
